@@ -10,9 +10,11 @@
   OBLIGATIONS (checked against `Genshi/Audit.lean` by the harness):
     xform_correct bound_names_left_alone free_names_looked_up strict_raises lenient_undefined
     name_resolution_order attr_falls_back_to_item item_falls_back_to_attr attr_error_of_class_propagates
-    constants_not_looked_up link_consistent
+    constants_not_looked_up link_consistent pipeline_faithful expression_semantics
 -/
 import Genshi.Lemmas.PyEval
+import Genshi.Lemmas.PyXformWF
+import Genshi.Props.C13
 namespace Genshi.Props.C03
 open Genshi.Py
 
@@ -34,6 +36,19 @@ theorem xform_correct (hL : Linked σ w g) (e : PyExpr) (hok : okScopes e = true
     simp [inLocals, Env.find]
   · intro r _; rfl
   · exact hok
+
+/-- **The compiled source is the rewritten tree.**  The rewriting of a supported expression is
+    again supported, so (C13 `parse_gen`) the source that is regenerated from it and handed to
+    `compile()` has exactly the abstract syntax of the rewritten tree: no grouping, operand,
+    argument or lookup call is lost between the transformer and the compiler. -/
+theorem pipeline_faithful (e : PyExpr) (h : Supported e) : pyParse (gen (xform e)) = some (xform e) :=
+  Genshi.Props.C13.parse_gen _ (supported_xform e h)
+
+/-- **End to end.**  What Python evaluates — the parse of the regenerated source of the
+    rewritten expression — computes the documented template semantics of the original. -/
+theorem expression_semantics (hL : Linked σ w g) (e : PyExpr) (hs : Supported e) (hok : okScopes e = true) :
+    ∃ e', pyParse (gen (xform e)) = some e' ∧ eval σ (pyLook σ g) e' [] = eval σ (gsLook σ w) e [] :=
+  ⟨xform e, pipeline_faithful e hs, xform_correct σ w g hL e hok⟩
 
 /-- a name bound in a local scope (lambda parameter, loop variable) is left alone by the
     rewriting and evaluates to the local value -/
